@@ -128,7 +128,7 @@ def main():
         "engines": engines,
         "checks": checks,
         "not_applicable": na,
-        "notes": "Exit codes: 0 held (possibly with KNOWN-FINDING lines), 1 VIOLATION, 2 MACHINERY-ERROR (never a verdict). Known findings and fixed defects: /verif/known_findings.txt. Changes used to test the checks: /verif/seeded/ (198 property-breaking changes written by sub-agents, RESULTS.md = detection matrix), /verif/mutants/ (own mutants incl. release-only ones), /verif/benign/ (40 property-preserving changes, RESULTS.md = silence matrix).",
+        "notes": "Exit codes: 0 held (possibly with KNOWN-FINDING lines), 1 VIOLATION, 2 MACHINERY-ERROR (never a verdict). Known findings and fixed defects: /verif/known_findings.txt. Changes used to test the checks: /verif/seeded/ (198 property-breaking changes written by sub-agents, RESULTS.md = detection matrix), /verif/mutants/ (own mutants incl. release-only ones), /verif/benign/ (60 candidate property-preserving changes, RESULTS.md = silence matrix; two of them turned out to break a property and are reported).",
     }
     if not na:
         del m["not_applicable"]
